@@ -748,8 +748,14 @@ def _gather_elements(ins, attrs, ctx):
 def _scatter_nd(ins, attrs, ctx):
     x, ind, upd = ins
     red = attrs.get("reduction", "none")
-    if red not in ("none", b"none"):
-        raise NotEncoded("ScatterND reduction")
+    if isinstance(red, bytes):
+        red = red.decode()
+    if red not in ("none", "add", "mul", "max", "min"):
+        raise Bottom(f"ScatterND reduction {red!r}")
+    if (red in ("add", "mul") and ctx.opset < 16) or (red in ("max", "min") and ctx.opset < 18):
+        raise Bottom(f"ScatterND reduction {red!r} needs a newer opset")
+    if red != "none" and x.kind == "b":
+        raise NotEncoded("ScatterND reduction on bool")
     _same_type([x, upd], "ScatterND")
     idx = np.array(ints_of(ind, "scatter indices"), dtype=np.int64).reshape(ind.shape)
     q = idx.shape[-1]
@@ -765,7 +771,19 @@ def _scatter_nd(ins, attrs, ctx):
             if not (-d <= v < d):
                 raise Bottom("ScatterND index out of bounds")
             tgt.append(int(v + d if v < 0 else v))
-        out[tuple(tgt)] = upd.arr[pos]
+        tgt = tuple(tgt)
+        if red == "none":
+            out[tgt] = upd.arr[pos]
+        else:
+            comb = {"add": e_add, "mul": e_mul, "max": e_max, "min": e_min}[red]
+            if q == x.arr.ndim:
+                out[tgt] = comb(out[tgt], upd.arr[pos], x.kind)
+            else:
+                cur, new = out[tgt], upd.arr[pos]
+                res = np.empty(cur.shape, dtype=object)
+                for p2 in np.ndindex(*cur.shape):
+                    res[p2] = comb(cur[p2], new[p2], x.kind)
+                out[tgt] = res
     return [SV(out, x.dtype)]
 
 
@@ -960,9 +978,16 @@ def _pad(ins, attrs, ctx):
     if mode != "constant":
         raise NotEncoded("Pad mode " + str(mode))
     if ctx.opset < 11:
-        raise NotEncoded("Pad < 11")
-    pads = ints_of(ins[1], "pads")
-    cval = ins[2].item() if len(ins) > 2 and ins[2] is not None else zero(x.kind)
+        # Pad-2: pads and the fill value are attributes
+        if len(ins) != 1 or "pads" not in attrs:
+            raise Bottom("Pad < 11 takes one input and a pads attribute")
+        pads = [int(p) for p in attrs["pads"]]
+        cval = _f(attrs.get("value", 0.0)) if x.kind == "f" else zero(x.kind)
+    else:
+        if "pads" in attrs or "value" in attrs:
+            raise Bottom("Pad >= 11 has no pads/value attributes")
+        pads = ints_of(ins[1], "pads")
+        cval = ins[2].item() if len(ins) > 2 and ins[2] is not None else zero(x.kind)
     axes = None
     if len(ins) > 3 and ins[3] is not None:
         if ctx.opset < 18:
